@@ -70,6 +70,21 @@ Definition emit (x : odt) : bytes := fmt_utc (to_utc_trunc x).
 (* Rfc3339 formatting refuses years outside 0..9999 *)
 Definition emit_ok (x : odt) : bool := let y := o_year (to_utc_trunc x) in (0 <=? y) && (y <=? 9999).
 
+(* The serialiser as a function with explicit outcomes (fix 44219c8):
+     $date.replace_millisecond(0)?            never fails for 0
+          .checked_to_offset(UtcOffset::UTC)  None when the UTC date leaves the crate's range, years -9999 ..= 9999
+          .ok_or(Error::UtcOutOfRange)?
+          .format(&Rfc3339)?                  refuses years outside 0 ..= 9999
+   [EmitPanic] is the outcome the former `to_offset` had for the first case; the current code has no
+   path to it (Proofs/TimeProofs.emit_checked_total). *)
+Inductive enc_error := UtcOutOfRange | UnableToFormatDate.
+Inductive emitted := Emitted (t : bytes) | EmitError (e : enc_error) | EmitPanic.
+Definition emit_checked (x : odt) : emitted :=
+  let u := to_utc_trunc x in
+  if (o_year u <? -9999) || (9999 <? o_year u) then EmitError UtcOutOfRange
+  else if o_year u <? 0 then EmitError UnableToFormatDate
+  else Emitted (fmt_utc u).
+
 (* ---- parsing (time::OffsetDateTime::parse(_, &Rfc3339) as observed) ---- *)
 Definition dval (b : N) : option Z := if ((48 <=? b) && (b <=? 57))%N then Some (Z.of_N b - 48) else None.
 Definition take2 (s : bytes) : option (Z * bytes) :=
